@@ -249,6 +249,125 @@ def case(kind, combo, part, shard_index=0):
         run.drop(root if kind != 'relative' else os.path.dirname(root))
 
 
+def journal_unit(part):
+    """SQLite journal modes other than the default WAL keep other side files
+    next to cache.db (cache.db-journal): an undamaged cache reports nothing
+    at any point of a write/check history, and a repair works."""
+    import diskcache as dc
+    for mode in ('wal', 'delete', 'truncate', 'persist'):
+        for kind in ('cache', 'fanout'):
+            root = run.fresh_dir('j')
+            ENV.reset(run.scratch())
+            kw = dict(disk_min_file_size=8, sqlite_journal_mode=mode)
+            obj = dc.Cache(root, **kw) if kind == 'cache' else \
+                dc.FanoutCache(root, shards=2, **kw)
+            problems = []
+            try:
+                for k, v in ITEMS.items():
+                    obj[k] = v
+                steps = []
+                steps.append(('check() after writes', lib_check(obj)))
+                obj['later'] = 'x' * 20
+                steps.append(('check(fix=True) after another write',
+                              lib_check(obj, fix=True)))
+                obj['later2'] = 'y' * 20
+                del obj['later']
+                steps.append(('check() after the repair and more writes',
+                              lib_check(obj)))
+                for what, said in steps:
+                    if said:
+                        problems.append(('undamaged-cache-reported',
+                                         '%s reports %r' % (what, said[:3])))
+                # one missing value file: repaired without an error
+                shard = root if kind == 'cache' else root + '/000'
+                rows = [r for r in Snapshot(shard).rows if r['filename']]
+                if rows:
+                    os.remove(os.path.join(shard, rows[0]['filename']))
+                    said = lib_check(obj, fix=True)
+                    if any(w.startswith('raised') for w in said) or \
+                            not any('file not found' in w for w in said):
+                        problems.append(('repair-failed',
+                                         'check(fix=True) of a missing value '
+                                         'file says %r' % (said[:3],)))
+                    again = lib_check(obj)
+                    if again:
+                        problems.append(('repair-incomplete',
+                                         'second check() reports %r'
+                                         % (again[:3],)))
+                    obj['after'] = 1
+                    if call(obj.get, 'after') != 1:
+                        problems.append(('unusable-after-repair',
+                                         'set/get after the repair fails'))
+            finally:
+                try:
+                    obj.close()
+                except Exception:
+                    pass
+                run.drop(root)
+            part['transitions'] += 4
+            part['executions'] += 1
+            okey = 'journal-' + mode
+            part['outcomes'][okey] = part['outcomes'].get(okey, 0) + 1
+            for clause, msg in problems:
+                part['violations'].append({
+                    'signature': {'clause': clause, 'kind': kind,
+                                  'journal_mode': mode},
+                    'message': '%s: %s with sqlite_journal_mode=%r: %s'
+                               % (clause, kind, mode, msg),
+                    'replay': {'engine': 'GRID', 'module': 'props.c17',
+                               'kind': 'journal', 'combo': [[mode, kind]],
+                               'shard': 0}})
+
+
+def locked_unit(part):
+    """One shard is damaged and another client holds that shard's write
+    lock: FanoutCache.check() either fails (Timeout) or reports the damage;
+    it never returns a report that silently leaves the shard out."""
+    import diskcache as dc
+    from ..env import real_connect
+    for si in (0, 1):
+        for fix in (False, True):
+            root = run.fresh_dir('q')
+            obj, shards = build('fanout', root)
+            other = None
+            try:
+                rows = [r for r in Snapshot(shards[si]).rows if r['filename']]
+                if not rows:
+                    continue
+                victim = os.path.join(shards[si], rows[0]['filename'])
+                os.remove(victim)
+                other = real_connect(os.path.join(shards[si], 'cache.db'),
+                                     timeout=0, isolation_level=None)
+                other.execute('BEGIN IMMEDIATE')
+                said = lib_check(obj, fix=fix)
+                part['transitions'] += 1
+                part['executions'] += 1
+                raised = any(w.startswith('raised') for w in said)
+                okey = 'locked-shard-' + ('raises' if raised else 'reports')
+                part['outcomes'][okey] = part['outcomes'].get(okey, 0) + 1
+                if not raised and not any(
+                        'file not found' in w and rows[0]['filename'] in w
+                        for w in said):
+                    part['violations'].append({
+                        'signature': {'clause': 'damage-not-reported',
+                                      'kind': 'fanout-locked-shard'},
+                        'message': 'damage-not-reported: shard %d misses a '
+                                   'value file and is write-locked by another '
+                                   'client; FanoutCache.check(fix=%r) '
+                                   'returned %r' % (si, fix, said[:3]),
+                        'replay': {'engine': 'GRID', 'module': 'props.c17',
+                                   'kind': 'locked', 'combo': [[si, fix]],
+                                   'shard': si}})
+            finally:
+                if other is not None:
+                    other.close()
+                try:
+                    obj.close()
+                except Exception:
+                    pass
+                run.drop(root)
+
+
 def many_unit(part):
     """More than 100 file-backed items (paging inside check), some value
     files missing at several positions."""
@@ -335,6 +454,11 @@ def work(unit):
         many_unit(part)
         part['states'] = 4
         return part
+    if kind == 'journal':
+        journal_unit(part)
+        locked_unit(part)
+        part['states'] = 12
+        return part
     for combo in combos:
         part['states'] += 1
         if kind == 'fanout':
@@ -363,6 +487,7 @@ def main(tier, seed):
     for i in range(0, len(singles), n):
         units.append(('relative', singles[i:i + n]))
     units.append(('many', ()))
+    units.append(('journal', ()))
     BIGV = ('$T', 12)
     for fix in (False,):
         for w in (('set', 'a', BIGV, None, None), ('pop', 'a', 0),
@@ -374,6 +499,11 @@ def main(tier, seed):
         rep.merge(part, part.get('label'))
     rep.bounds = {
         'damage_instances': len(DAMAGES),
+        'journal_modes': 'wal/delete/truncate/persist x Cache/FanoutCache: an '
+                         'undamaged cache reports nothing along a write/'
+                         'check/repair history; a missing value file is '
+                         'repaired; a damaged shard that another client '
+                         'holds locked is reported or the check fails',
         'concurrent': 'plain check() on an undamaged cache against 4 writes '
                       'of a file-backed value by another client, all '
                       'schedules (<= 3 preemptions in quick): only in-flight '
